@@ -104,8 +104,12 @@ func leafFamily(level int) []SCase {
 							s["default"] = l.Default
 						}
 						id := fmt.Sprintf("leaf/%s/%s/null=%d/req=%v/def=%v", pos.Name, l.Name, nu, required, d)
+						root, ok := wrapLeaf(pos, l, s, required)
+						if !ok {
+							continue
+						}
 						out = append(out, SCase{
-							ID: id, Schema: pos.Wrap(s, required), Cfg: baseCfg(),
+							ID: id, Schema: root, Cfg: baseCfg(),
 							Axes: map[string]string{"pos": pos.Name, "leaf": l.Name, "kind": l.Kind, "format": l.Format,
 								"nullable": fmt.Sprint(nu >= 0), "required": fmt.Sprint(required), "default": fmt.Sprint(d)},
 						})
@@ -115,6 +119,26 @@ func leafFamily(level int) []SCase {
 		}
 	}
 	return out
+}
+
+// wrapLeaf places the (possibly modified) leaf schema s at the position and adds the definitions the leaf refers to; ok is
+// false when the position keeps its definitions under the other keyword ("definitions").
+func wrapLeaf(pos space.Position, l space.Leaf, s J, required bool) (J, bool) {
+	root := pos.Wrap(s, required)
+	if l.Defs != nil {
+		if _, other := root["definitions"]; other {
+			return nil, false
+		}
+		ds, _ := root["$defs"].(J)
+		if ds == nil {
+			ds = J{}
+		}
+		for k, v := range l.Defs {
+			ds[k] = space.Clone(v.(J))
+		}
+		root["$defs"] = ds
+	}
+	return root, true
 }
 
 // collisionTriples: three definitions whose names normalise to the same Go type name, with contents following every
